@@ -1604,6 +1604,84 @@ def _callee_choice(fn):
   rec(fn.body)
 
 
+def _fuse_comprehension_loops(fn):
+  """`L = [E(v) for v in S if C]` followed by `for x in L: BODY`, L read nowhere
+  else  ==  `for v in S: if C: x = E(v); BODY`.  The list only exists to be
+  walked once; E and C are reads (no call on anything BODY writes through)."""
+  def blocks(stmts):
+    yield stmts
+    for st in stmts:
+      for f in ('body', 'orelse', 'finalbody'):
+        b = getattr(st, f, None)
+        if isinstance(b, list) and b and isinstance(b[0], ast.stmt) and not isinstance(
+            st, (ast.FunctionDef, ast.ClassDef)):
+          yield from blocks(b)
+  done = 0
+  for block in list(blocks(fn.body)):
+    i = 0
+    while i + 1 < len(block):
+      lp = block[i + 1]
+      i += 1
+      # the list is defined right before the loop, or with plain local
+      # assignments (of names the comprehension does not mention) in between
+      a, ai = None, None
+      for back in range(i - 1, max(-1, i - 4), -1):
+        c_ = block[back]
+        if isinstance(c_, ast.Assign) and len(c_.targets) == 1 and isinstance(
+            c_.targets[0], ast.Name) and isinstance(
+                c_.value, (ast.ListComp, ast.GeneratorExp)) and isinstance(
+                    lp, ast.For) and isinstance(lp.iter, ast.Name) and \
+            lp.iter.id == c_.targets[0].id:
+          between = block[back + 1:i]
+          names_c = {x.id for x in ast.walk(c_.value) if isinstance(x, ast.Name)}
+          if all(isinstance(b_, ast.Assign) and len(b_.targets) == 1 and isinstance(
+              b_.targets[0], ast.Name) and b_.targets[0].id not in names_c and
+                 b_.targets[0].id != c_.targets[0].id and not any(
+                     isinstance(x, ast.Name) and x.id == c_.targets[0].id
+                     for x in ast.walk(b_.value)) for b_ in between):
+            a, ai = c_, back
+          break
+      if a is None:
+        continue
+      if not (isinstance(a, ast.Assign) and len(a.targets) == 1 and isinstance(
+          a.targets[0], ast.Name) and isinstance(a.value, (ast.ListComp, ast.GeneratorExp))
+              and len(a.value.generators) == 1 and not a.value.generators[0].is_async
+              and isinstance(a.value.generators[0].target, ast.Name)):
+        continue
+      name = a.targets[0].id
+      if not (isinstance(lp, ast.For) and isinstance(lp.iter, ast.Name) and
+              lp.iter.id == name and not lp.orelse and isinstance(lp.target, ast.Name)):
+        continue
+      uses = sum(1 for x in ast.walk(fn) if isinstance(x, ast.Name) and x.id == name)
+      if uses != 2:
+        continue
+      gen = a.value.generators[0]
+      v = gen.target.id
+      # the comprehension variable must be free for use as a loop variable
+      if sum(1 for x in ast.walk(fn) if isinstance(x, ast.Name) and x.id == v) != sum(
+          1 for x in ast.walk(a) if isinstance(x, ast.Name) and x.id == v):
+        continue
+      pure = all(isinstance(c.func, (ast.Name, ast.Attribute)) for c in ast.walk(a.value)
+                 if isinstance(c, ast.Call)) and not _has(
+                     a.value, (ast.Lambda, ast.Yield, ast.YieldFrom, ast.Await,
+                               ast.NamedExpr))
+      if not pure:
+        continue
+      inner = [ast.Assign(targets=[ast.Name(id=lp.target.id, ctx=ast.Store())],
+                          value=a.value.elt)] + lp.body
+      for t in gen.ifs[::-1]:
+        inner = [ast.If(test=t, body=inner, orelse=[])]
+      new = ast.For(target=ast.Name(id=v, ctx=ast.Store()), iter=gen.iter, body=inner,
+                    orelse=[])
+      ast.copy_location(new, lp)
+      ast.fix_missing_locations(new)
+      block[i] = new
+      del block[ai]
+      i -= 1
+      done += 1
+  return done
+
+
 class _Idioms(ast.NodeTransformer):
   """Spelling variants with one meaning, brought to one form:
        x.get(k, None) -> x.get(k)          set((a,)) / set([a]) -> {a}
@@ -1615,6 +1693,7 @@ class _Idioms(ast.NodeTransformer):
     self._fns.pop()
     _callee_choice(n)
     _single_exit_to_returns(n)
+    _fuse_comprehension_loops(n)
     return n
 
   def visit_If(self, n):
@@ -1784,7 +1863,9 @@ class _Idioms(ast.NodeTransformer):
     # attribute chain of a name: the local is an alias of what was stored)
     if len(n.targets) == 2:
       nm = [t for t in n.targets if isinstance(t, ast.Name)]
-      ch = [t for t in n.targets if isinstance(t, ast.Attribute) and _simple(t)]
+      ch = [t for t in n.targets if (isinstance(t, ast.Attribute) and _simple(t)) or (
+          isinstance(t, ast.Subscript) and _simple(t.value) and isinstance(
+              t.slice, (ast.Name, ast.Constant)))]
       if len(nm) == 1 and len(ch) == 1:
         first = ast.copy_location(ast.Assign(targets=[ch[0]], value=n.value), n)
         load = copy.deepcopy(ch[0])
